@@ -366,6 +366,20 @@ seed("C11", "serial-getter-returns-fps", "CameraSerial getter returns another fi
 seed("C08", "cold-zero-skipped", "sub-threshold value 0 treated differently from other cold values", ["C08.N4"],
      (MO, "\t\t\tva := a.Pix[y][x]\n\t\t\tif va < d.tempThresh {\n\t\t\t\tva = d.tempThresh\n\t\t\t}\n\t\t\tvb := b.Pix[y][x]\n\t\t\tif vb < d.tempThresh {\n\t\t\t\tvb = d.tempThresh\n\t\t\t}\n\t\t\tout.Pix[y][x] = absDiff(va, vb)", "\t\t\tva := a.Pix[y][x]\n\t\t\tif va == 0 {\n\t\t\t\tcontinue\n\t\t\t}\n\t\t\tif va < d.tempThresh {\n\t\t\t\tva = d.tempThresh\n\t\t\t}\n\t\t\tvb := b.Pix[y][x]\n\t\t\tif vb < d.tempThresh {\n\t\t\t\tvb = d.tempThresh\n\t\t\t}\n\t\t\tout.Pix[y][x] = absDiff(va, vb)"))
 
+# ---- later additions
+seed("C05", "frozen-clock", "the bucket's clock never advances", ["C05.T2"],
+     (TH, "func (realClock) Now() time.Time {\n\treturn time.Now()", "var clockStart = time.Now()\n\nfunc (realClock) Now() time.Time {\n\treturn clockStart"))
+seed("C14", "no-blank-line-after-header", "leptond does not terminate the camera description with a blank line", ["C14.M6"],
+     (LD, '\tconn.Write([]byte("\\n"))\n\treturn nil', '\treturn nil'))
+seed("C18", "rotation-without-close", "old file not closed on rotation", ["C18.W4"],
+     (TW, "\t\tcase <-changeFile:\n\t\t\tbuilder.Close()\n", "\t\tcase <-changeFile:\n"))
+seed("C01", "mark-expires-late", "ring mark expires one slot late", ["C01.O3", "C01.O2"],
+     (FL, "\tif fl.currentIndex == fl.oldest {\n\t\tfl.oldest = NO_OLDEST_SET\n\t}\n", "\tif fl.nextIndexAfter(fl.currentIndex) == fl.oldest {\n\t\tfl.oldest = NO_OLDEST_SET\n\t}\n"))
+seed("C02", "mark-expires-late", "ring mark expires one slot late", ["C02.P2", "C02.P4"],
+     (FL, "\tif fl.currentIndex == fl.oldest {\n\t\tfl.oldest = NO_OLDEST_SET\n\t}\n", "\tif fl.nextIndexAfter(fl.currentIndex) == fl.oldest {\n\t\tfl.oldest = NO_OLDEST_SET\n\t}\n"))
+seed("C07", "compare-ring-never-wraps-flag", "wrapped flag set one step late", ["C07.K5"],
+     (FL, "\tif fl.currentIndex == 0 {\n\t\tfl.bufferFull = true\n\t}", "\tif fl.currentIndex == 1 {\n\t\tfl.bufferFull = true\n\t}"))
+
 here = os.path.dirname(os.path.abspath(__file__))
 for pid, name, d in S:
     os.makedirs(os.path.join(here, pid), exist_ok=True)
